@@ -85,6 +85,10 @@ def fault_cases():
     cases.append(("bad-merge-arity", g, base + ["--merge", "exact_1"], True))
     cases.append(("custom-without-generator", g, base + ["-f", "custom"], True))
     cases.append(("generator-without-custom", g, base + ["--code-generator", "json_to_models.models.attr.AttrsModelCodeGenerator"], True))
+    for fw in ([], ["-f", "base"], ["-f", "pydantic"], ["-f", "attrs"]):
+        cases.append(("empty-generator-without-custom" + "".join(fw), g, base + fw + ["--code-generator", ""], True))
+        cases.append(("empty-generator-eq-without-custom" + "".join(fw), g, base + fw + ["--code-generator="], True))
+    cases.append(("custom-with-empty-generator", g, base + ["-f", "custom", "--code-generator", ""], True))
     cases.append(("custom-generator-import-error", g, base + ["-f", "custom", "--code-generator", "no.such.Module"], True))
     cases.append(("unknown-framework", g, base + ["-f", "nope"], True))
     cases.append(("unknown-option", g, base + ["--frobnicate"], True))
